@@ -389,6 +389,9 @@ impl Divan {
 
                     if should_compute_stats {
                         let stats = bench_context.compute_stats();
+
+                        #[cfg(feature = "divan_verif")]
+                        crate::verif::api::leaf_stats_event(&stats);
                         tree_painter.borrow_mut().finish_leaf(
                             is_last_thread_count,
                             &stats,
